@@ -14,7 +14,7 @@ RULE = {
     "author": "me",
     "severity_score": 5,
     "fields": ["fieldA", "fieldE"],
-    "detection": {"sel": {"fieldA": ["foo*", "bar"], "fieldC": None, "fieldD": 5, "fieldG|fieldref": "fieldH"}, "condition": "sel"},
+    "detection": {"sel": {"fieldA": ["foo*", "bar"], "fieldC": None, "fieldD": 5, "fieldG|fieldref": "fieldH", "fieldK": "kv"}, "condition": "sel"},
 }
 
 
@@ -90,22 +90,55 @@ def pipeline_dict(G):
         "priority": 10,
         "transformations": [
             {"id": "st", "type": "set_state", "key": "k", "val": "v"},
-            {"id": "ren", "type": "field_name_mapping", "mapping": {"fieldA": "fieldB"}},
+            {"id": "pre", "type": "replace_string", "regex": "^kv$", "replacement": "kw",
+             "field_name_conditions": [{"type": "include_fields", "fields": ["fieldK"]}]},
+            {"id": "ren", "type": "field_name_mapping", "mapping": {"fieldA": "fieldB", "fieldK": ["fieldK1", "fieldK2"]}},
             rulemark,
             marker,
         ],
     }
 
 
+PP_FIRST = {
+    "embed": {"type": "embed", "prefix": "[", "suffix": "]"},
+    "simple_template": {"type": "simple_template", "template": "[{query}]"},
+    "template": {"type": "template", "template": "[{{ query }}]"},
+    "replace": {"type": "replace", "pattern": "zzz", "replacement": "y"},
+}
+
+
+def pp_pipeline_dict(G, pp):
+    d = pipeline_dict(G)
+    mark = {"id": "pmark", "type": "embed", "prefix": "M(", "suffix": ")"}
+    mark.update(group_keys("rule", G["rule"], "rule"))
+    d["postprocessing"] = ([dict(PP_FIRST[pp], id="first")] if pp != "none" else []) + [mark]
+    d["transformations"] = d["transformations"][:3]
+    return d
+
+
 def drive_case(case):
     from sigma.processing.pipeline import ProcessingPipeline
     from sigma.rule import SigmaRule
+
+    if case.get("pp", "-") != "-":
+        from sigma.backends.test import TextQueryTestBackend
+
+        def gopp():
+            p = ProcessingPipeline.from_dict(pp_pipeline_dict(case["G"], case["pp"]))
+            q = TextQueryTestBackend(p).convert_rule(SigmaRule.from_dict(copy.deepcopy(RULE)))
+            return {"items": [], "refs": [], "fields": [], "rule": all(x.startswith("M(") for x in q)}
+
+        ret = outcome(gopp)
+        if not ret["ok"]:
+            ret["out"] = {"items": [], "fields": [], "rule": False, "refs": []}
+        return {"id": case["id"], "G": case["G"], "pp": case["pp"], "ret": ret}
 
     def go():
         p = ProcessingPipeline.from_dict(pipeline_dict(case["G"]))
         r = SigmaRule.from_dict(copy.deepcopy(RULE))
         p.apply(r)
-        items = r.detection.detections["sel"].detection_items
+        # (a one-to-many renaming replaces an item by a nested detection holding one item per new name)
+        items = [j for i in r.detection.detections["sel"].detection_items for j in (i.detection_items if hasattr(i, "detection_items") else [i])]
         return {
             "items": [str(i.field).endswith("_M") for i in items],
             "refs": [v.field.endswith("_M") for i in items for v in i.value if type(v).__name__ == "SigmaFieldReference"],
@@ -116,7 +149,7 @@ def drive_case(case):
     ret = outcome(go)
     if not ret["ok"]:
         ret["out"] = {"items": [], "fields": [], "rule": False, "refs": []}
-    return {"id": case["id"], "G": case["G"], "ret": ret}
+    return {"id": case["id"], "G": case["G"], "pp": "-", "ret": ret}
 
 
 def run(tier: str, seed: int) -> int:
@@ -125,7 +158,7 @@ def run(tier: str, seed: int) -> int:
     cases = chk.generate("Gen_C13")
     obs = drive("harness.props.c13", "drive_case", cases)
     verdicts = chk.judge("Judge_C13", obs)
-    by_id = {o["id"]: {"marker_item": pipeline_dict(o["G"])["transformations"][3], "observed": o["ret"]["out"] if o["ret"]["ok"] else o["ret"]["exc"] + ": " + uncps(o["ret"]["msg"])} for o in obs}
+    by_id = {o["id"]: {"marker_item": pipeline_dict(o["G"])["transformations"][4], "observed": o["ret"]["out"] if o["ret"]["ok"] else o["ret"]["exc"] + ": " + uncps(o["ret"]["msg"])} for o in obs}
     chk.absorb(verdicts, by_id, {c["id"]: c for c in cases})
     nontrivial = sum(1 for c in cases if sum(len(c["G"][k]["conds"]) for k in ("rule", "item", "field")) >= 1)
     samples = [by_id[o["id"]] for o in obs[:: max(1, len(obs) // 4)]][:4]
@@ -136,8 +169,9 @@ def run(tier: str, seed: int) -> int:
         "type (12 rule, 11 detection-item, 8 field-name conditions): every group alone with 0, 1 or 2 conditions in list form "
         "(default/and/or linking x negation) or map form with every expression over 1-2 identifiers, incl. the EMPTY group "
         "under every linking/negation setting, plus a seeded product of 12 x 12 x 10 groups; a marker transformation behind "
-        "a state-setting and a field-renaming item shows where it acted (4 detection items, a field reference in a value, 2 field-list entries, the rule); "
-        "non-trivial = at least one condition",
+        "a state-setting and a field-renaming item shows where it acted (6 detection items - two of them the replacements of a one-to-many renaming -, a field reference in a value, 2 field-list entries, the rule); "
+        "plus a marker post-processing item behind a first post-processing item of each kind (embed, simple_template, template, replace, none) "
+        "gated on that item's application; non-trivial = at least one condition",
         samples=samples,
         traces=len(obs),
         exhaustive=False,
